@@ -312,13 +312,27 @@ def run(ctx) -> None:
             return e, specs.index(at), specs.index(at) + 1
         return None
     rew = [n for n in cfg.nodes if n.kind == "stmt" and isinstance(n.ast, ast.Assign) and hash_format(n.ast.value) is not None]
+    # the previous instance is NAMED from the iteration number alone.  An assignment that merely contains the format (as the fallback of a
+    # lookup in state the caller keeps, say) takes the name from somewhere else whenever that lookup answers
+    wrapped = [n for n in cfg.nodes if n.kind == "stmt" and isinstance(n.ast, ast.Assign) and hash_format(n.ast.value) is None
+               and any(hash_format(x) is not None for x in ast.walk(n.ast.value))]
+    for n in wrapped:
+        ctx.ob("C05.R3-loop-carried-from-previous", n.ast, False,
+               "the producer of a loop-carried binding is '<iteration-1>#<name>' only as a fallback (%s): when the other source answers - e.g. the "
+               "'latest' instance recorded in a placeholder, which a restart from a later stage freezes for the loop's earlier-stage components - "
+               "instance i takes its loop-carried input from an OLDER instance than i-1 (stage1.3#work reads stage1.1#work:output), silently"
+               % short(n.ast.value, 70), construct="instantiate_dowhile: loop-carried producer named from the iteration number alone")
+    rew = rew + wrapped
     ctx.require(bool(rew), "anchor missing: '%d#%s' rewrite of the loop-binding producer in instantiate_dowhile")
+
+    def inner_format(e: ast.AST):
+        return next((hash_format(x) for x in ast.walk(e) if hash_format(x) is not None), None)
     # roles: (stage, producer, file, method) unpacked from ParseDataReferenceFull of a loop-binding value
     unp = [n.targets[0] for n in source.walk_own(idw) if isinstance(n, ast.Assign) and isinstance(n.targets[0], ast.Tuple)
            and len(n.targets[0].elts) == 4 and all(isinstance(e, ast.Name) for e in n.targets[0].elts)
            and isinstance(n.value, ast.Call) and last_attr(n.value) == "ParseDataReferenceFull"]
     def fmt_args(r_):
-        b, i_it, i_nm = hash_format(r_.ast.value)
+        b, i_it, i_nm = inner_format(r_.ast.value)
         elts = list(b.right.elts) if isinstance(b.right, ast.Tuple) else [b.right]
         return (elts[i_it] if i_it < len(elts) else None), (elts[i_nm] if i_nm < len(elts) else None)
     _prod_arg = fmt_args(rew[0])[1]
